@@ -143,7 +143,9 @@ func exploreScenario(r *mc.Report, sc *Scenario, b mc.Bounds, oracle oracleFn) {
 		return true
 	})
 	r.AddStats(st)
-	r.Sample(map[string]any{"scenario": sc, "schedules": st.Executions, "last_outcome": e.Summary()})
+	if e != nil {
+		r.Sample(map[string]any{"scenario": sc, "schedules": st.Executions, "last_outcome": e.Summary()})
+	}
 }
 
 // scenFamily drops the parameter suffix of a scenario name ("get-vs-close/3" -> "get-vs-close").
